@@ -360,6 +360,66 @@ func genC14(d *Draw) Case {
 		c.Events = append(c.Events, EvPlan{Kind: e.Kind, Ref: e.Ref})
 		evd = append(evd, e.Ref)
 	}
+	if ne >= 2 && d.N(2) == 1 {
+		// burst stratum: 2..24 further events are put in front and handed over back to back by one client while
+		// a slow trace subscriber holds the node up (the relay between the tracers buffers ten traces before the
+		// back-pressure reaches the node), so that they pile up in and beyond its inbox; the node has to take
+		// them in the order in which they were handed over.
+		nb := 2 + d.N(23)
+		var front []EvPlan
+		var fd []string
+		for i := 0; i < nb; i++ {
+			e := cm.Events[d.N(len(cm.Events))]
+			if d.N(8) == 7 {
+				e = pool[d.N(len(pool))]
+			}
+			front = append(front, EvPlan{Kind: e.Kind, Ref: e.Ref})
+			fd = append(fd, e.Ref)
+		}
+		if len(cm.Events) >= 2 && cm.Parallel && d.N(3) != 0 {
+			// the pattern in which the order inside the burst matters most: a partial set, filler that fills the
+			// inbox, a second partial set (surplus) and right behind it the event that completes the first set;
+			// once the token is back, the completing event alone makes the kept surplus set fire
+			front, fd = nil, nil
+			add := func(e EventDef) {
+				front = append(front, EvPlan{Kind: e.Kind, Ref: e.Ref})
+				fd = append(fd, e.Ref)
+			}
+			lastDef := cm.Events[len(cm.Events)-1]
+			for _, e := range cm.Events[:len(cm.Events)-1] {
+				add(e)
+			}
+			// (every event observed by the listening node costs a trace; the relay between the tracers buffers ten
+			// of them before a slow subscriber holds the node up, and its inbox then takes three more events)
+			nf := 2 + d.N(6)
+			if d.Bool() {
+				nf = 12 + d.N(12)
+			}
+			for i := 0; i < nf; i++ {
+				add(EventDef{Kind: "signal", Ref: "sX"})
+			}
+			for _, e := range cm.Events[:len(cm.Events)-1] {
+				add(e)
+			}
+			add(lastDef)
+			nb = len(front)
+			if acts < 2 {
+				acts = 2
+				g.Flow(g.Node("LS").Out[0]).Cond.Lt = acts
+			}
+			// nothing else is delivered: every definition is then matched exactly twice while the catch listens,
+			// which pins the outcome (two firings), so the counting model is exact here; for arbitrary bursts
+			// the property only bounds the firings and the catch stays relaxed
+			c.Events = []EvPlan{{Kind: lastDef.Kind, Ref: lastDef.Ref, Last: true}}
+			evd = []string{lastDef.Ref + "(once the token is back)"}
+			cm.Relaxed = false
+		}
+		front[0].Burst = nb - 1
+		c.Events = append(front, c.Events...)
+		c.ExtraObs = 1
+		c.SlowObsMs = 2 + 6*d.N(4)
+		evd = append([]string{fmt.Sprintf("burst%v", fd)}, evd...)
+	}
 	var dd []string
 	for _, e := range cm.Events {
 		dd = append(dd, e.Ref)
@@ -414,9 +474,14 @@ func checkC14(cc Case, r *simrt.Result) *Outcome {
 		}
 	}
 	concurrent := false
+	burst := false
 	for _, ep := range c.Events {
 		if ep.Own {
 			concurrent = true
+		}
+		if ep.Burst > 0 {
+			burst = true
+			concurrent = true // the pairing of deliveries and observations below assumes one event at a time
 		}
 	}
 	if cm.Parallel && len(cm.Events) > 1 && len(tg.Viol) == 0 && !concurrent {
@@ -445,7 +510,8 @@ func checkC14(cc Case, r *simrt.Result) *Outcome {
 	probe(o, "parallel-multiple", cm.Parallel && len(cm.Events) > 1)
 	probe(o, "fired", fires > 0)
 	probe(o, "re-armed", fires > 1)
-	probe(o, "concurrent-deliveries", concurrent)
+	probe(o, "concurrent-deliveries", concurrent && !burst)
+	probe(o, "burst-behind-a-stalled-node", burst)
 	o.Sample = map[string]any{"program": c.Prog.Desc, "matches_per_definition": matches, "fires": fires}
 	return o
 }
